@@ -315,7 +315,7 @@ def generate(plan) -> None:
     # non-interference twin: a second gateway hears the same history minus the spliced-in system (eavesdropping off only)
     twin_wanted = bool(sc == "views" and (not k["eavesdrop"] or os.environ.get("SIMRF_TWIN_EAVES")) and not ff and not k["via_file"]
                        and r.random() < 0.8)
-    k["p_neighbour"] = r.choice([0.0, 0.3, 1.0]) if twin_wanted else 0.0
+    k["p_neighbour"] = r.choice([0.0, 0.3, 1.0]) if (twin_wanted and not k["eavesdrop"]) else 0.0
     ops = build_history(r, k)
     n = len(ops)
     k["twin"] = bool(twin_wanted and any(o.get("src") for o in ops))
